@@ -140,7 +140,7 @@ def _dumpstruct(
     color: bool,
     output: str,
 ) -> str | None:
-    palette = []
+    palette = [] if color else None
     colors = [
         (COLOR_RED, COLOR_BG_RED),
         (COLOR_GREEN, COLOR_BG_GREEN),
